@@ -33,7 +33,7 @@ META = dict(
          "near rule.",
     design_ref="4/C10")
 
-KINDS_Q = ["near", "ladder", "sized", "two", "half", "wrong", "tf5", "spot", "near", "fast", "fast2", "iso", "tf15", "tf60", "over"]
+KINDS_Q = ["near", "ladder", "sized", "two", "half", "wrong", "tf5", "spot", "big", "fast", "fast2", "iso", "tf15", "tf60", "over", "tiny", "near"]
 
 
 def run(ctx):
